@@ -54,3 +54,18 @@ PROPS["C18"] = {
                   T("TestC18Exclude", {"checks": 2500}, {"checks": 50000, "shards": 8})],
     }],
 }
+
+PROPS["C20"] = {
+    "level": "fault_enumeration",
+    "exhaustive_when_all": True,
+    "exhaustive_tests": ["TestC20Exhaustive"],
+    "assumptions": ["read outcomes are the bare values gopacket's afpacket returns (syscall.Errno, io errors, a net.Error for timeouts)",
+                    "cancellation is injected synchronously inside a read call; one further read after it is tolerated",
+                    "io.ErrNoProgress / io.ErrShortBuffer are not generated (the statement leaves them open)"],
+    "units": [{
+        "pkg": "pkg/packet",
+        "tests": [T("TestC20Exhaustive", {"checks": 1, "env": {"C20_LEN": 3}}, {"checks": 1, "env": {"C20_LEN": 5}, "timeout": 3000}),
+                  T("TestC20Random", {"checks": 600, "shards": 4, "env": {"C20_MAXU": 10}},
+                    {"checks": 3000, "shards": 16, "env": {"C20_MAXU": 40}})],
+    }],
+}
